@@ -181,7 +181,7 @@ static void prop_il_8x2(pbt::Ctx& c) {
 	glm::uint8 x = (glm::uint8)(i & 255), y = (glm::uint8)(i >> 8);
 	if (c.verbose) c.logf("bitfieldInterleave(uint8 0x%02x, 0x%02x); bitfieldDeinterleave(uint16 0x%04x)", (unsigned)x, (unsigned)y, (unsigned)i);
 	uint64_t a[2] = {x, y};
-	if (distinct_nontrivial(a, 2, 0xffu)) c.nontrivial();
+	if (distinct_nontrivial(a, 2, 0xffu)) c.nontrivial(); else c.cls(x == y ? "operands-equal" : "operand-0-or-all-ones");
 	uint16_t want = (uint16_t)c18::interleave(a, 2, 8);
 	glm::uint16 g = glm::bitfieldInterleave(x, y);
 	if (g != want) C18_FAIL(c, "bitfieldInterleave", "uint8x2", "", 0, "bitfieldInterleave(0x%02x,0x%02x)=0x%04x, expected 0x%04x", (unsigned)x, (unsigned)y, (unsigned)g, (unsigned)want);
@@ -202,7 +202,7 @@ static void prop_il_16x2(pbt::Ctx& c) {
 	uint64_t i = c.draw(1ULL << 32); c18::begin_sweep_case(i);
 	glm::uint16 x = (glm::uint16)(i & 0xffff), y = (glm::uint16)(i >> 16);
 	if (c.verbose) c.logf("bitfieldInterleave(uint16 0x%04x, 0x%04x)", (unsigned)x, (unsigned)y);
-	if (x != y && x != 0 && y != 0 && x != 0xffff && y != 0xffff) c.nontrivial();
+	if (x != y && x != 0 && y != 0 && x != 0xffff && y != 0xffff) c.nontrivial(); else c.cls(x == y ? "operands-equal" : "operand-0-or-all-ones");
 	uint32_t want = spread16(x) | (spread16(y) << 1);
 	if (i % 4099 == 0) { uint64_t a[2] = {x, y}; if ((uint32_t)c18::interleave(a, 2, 16) != want) c.fail("oracle-self-check/16x2", "table oracle disagrees with the loop oracle at (0x%04x,0x%04x)", (unsigned)x, (unsigned)y); c.cls("table-oracle-cross-checked"); }
 	glm::uint32 g = glm::bitfieldInterleave(x, y);
@@ -222,7 +222,7 @@ static void prop_il_8x3(pbt::Ctx& c) {
 	glm::uint8 x = (glm::uint8)(i & 255), y = (glm::uint8)((i >> 8) & 255), z = (glm::uint8)(i >> 16);
 	if (c.verbose) c.logf("bitfieldInterleave(uint8 0x%02x, 0x%02x, 0x%02x)", (unsigned)x, (unsigned)y, (unsigned)z);
 	uint64_t a[3] = {x, y, z};
-	if (distinct_nontrivial(a, 3, 0xffu)) c.nontrivial();
+	if (distinct_nontrivial(a, 3, 0xffu)) c.nontrivial(); else c.cls("operands-not-distinct-or-0/all-ones");
 	uint32_t want = SP.s3[x] | (SP.s3[y] << 1) | (SP.s3[z] << 2);
 	if (i % 4099 == 0) { if ((uint32_t)c18::interleave(a, 3, 8) != want) c.fail("oracle-self-check/8x3", "table oracle disagrees with the loop oracle at index %llu", (unsigned long long)i); c.cls("table-oracle-cross-checked"); }
 	glm::uint32 g = glm::bitfieldInterleave(x, y, z);
@@ -239,7 +239,7 @@ static void prop_il_8x4(pbt::Ctx& c) {
 	glm::uint8 x = (glm::uint8)(i & 255), y = (glm::uint8)((i >> 8) & 255), z = (glm::uint8)((i >> 16) & 255), w = (glm::uint8)(i >> 24);
 	if (c.verbose) c.logf("bitfieldInterleave(uint8 0x%02x, 0x%02x, 0x%02x, 0x%02x)", (unsigned)x, (unsigned)y, (unsigned)z, (unsigned)w);
 	uint64_t a[4] = {x, y, z, w};
-	if (distinct_nontrivial(a, 4, 0xffu)) c.nontrivial();
+	if (distinct_nontrivial(a, 4, 0xffu)) c.nontrivial(); else c.cls("operands-not-distinct-or-0/all-ones");
 	uint32_t want = SP.s4[x] | (SP.s4[y] << 1) | (SP.s4[z] << 2) | (SP.s4[w] << 3);
 	if (i % 4099 == 0) { if ((uint32_t)c18::interleave(a, 4, 8) != want) c.fail("oracle-self-check/8x4", "table oracle disagrees with the loop oracle at index %llu", (unsigned long long)i); c.cls("table-oracle-cross-checked"); }
 	glm::uint32 g = glm::bitfieldInterleave(x, y, z, w);
